@@ -349,6 +349,42 @@ Theorem C16_tj_multi_transform : forall sm wj wa segs rest icc_buf, 0 <= sm < 5 
 Proof. exact (tj_multi_transform eq_refl). Qed.
 Print Assumptions C16_tj_multi_transform.
 
+(* every output of tj3Transform, whole header: after SOI the library's JFIF/Adobe marker then the documented extras, as
+   ordinary segments; re-reading it under ANY save limits gives exactly those markers in that order *)
+Theorem C16_tj_output_rereadable : forall c cs j extras rest, jfif_ok j -> (forall k, 0 <= c k) ->
+  Forall seg_ok extras -> stops rest ->
+  exists lb eb, write_markers (lib_segs cs j) = Some lb /\ write_markers extras = Some eb /\
+    emit_file_header cs j ++ eb = emit_marker M_SOI ++ lb ++ eb /\
+    forall fuel h acc, (length (lib_segs cs j ++ extras) < fuel)%nat ->
+      exists h', read_app_markers fuel c h acc ((lb ++ eb) ++ rest)
+                 = Some (h', acc ++ flat_map (saved_under c) (lib_segs cs j ++ extras), rest).
+Proof. exact tj_output_rereadable. Qed.
+Print Assumptions C16_tj_output_rereadable.
+
+(* the ICC profile of every output of a multi-transform call: the source's -- however it is cut into APP2 chunks, in
+   whatever order -- when that transform copies APP2, else the instance's; byte-identical *)
+Theorem C16_tj_transform_icc_roundtrip :
+  forall sm wj wa segs rest srt n junk, 0 <= sm < 5 ->
+  Forall seg_ok segs -> Forall (fun s => Forall is_byte (snd s)) segs -> stops rest ->
+  Permutation (filter marker_is_icc (map saved_of segs)) srt -> well_numbered n srt -> concat (map icc_payload srt) <> [] ->
+  exists bytes, write_markers segs = Some bytes /\
+    forall flags fuel, (length segs < fuel)%nat ->
+    forall q qsegs, 1 <= Zlength q <= 255 * MAXD -> write_icc q = Some qsegs ->
+    exists outs, tj_transform_multi sm flags wj wa fuel (bytes ++ rest) q = Some outs /\ length outs = length flags /\
+      forall i, (i < length flags)%nat ->
+        read_icc_with junk (markers_of (nth i outs [])) =
+        IccOk (if negb (nth i flags false) && copies_app2 sm then concat (map icc_payload srt) else q).
+Proof. exact (tj_transform_icc_roundtrip eq_refl). Qed.
+Print Assumptions C16_tj_transform_icc_roundtrip.
+
+(* bytes written for a profile = its length + 18 per APP2 marker = the ICC term of tj3TransformBufSize *)
+Theorem C16_icc_written_size : forall p, 1 <= Zlength p <= 255 * MAXD ->
+  exists segs b, write_icc p = Some segs /\ write_markers segs = Some b /\
+    Zlength b = Zlength p + TJ_BUFSIZE_ICC_PER_MARKER * icc_num_markers (Zlength p) /\
+    Zlength b = tj_bufsize_icc 0 false 0 0 (Zlength p).
+Proof. exact icc_written_size. Qed.
+Print Assumptions C16_icc_written_size.
+
 (* jpeg_write_marker / jpeg_write_m_header: accepted exactly between jpeg_start_compress / jpeg_write_coefficients and the
    first scanline; then the 65533 limit *)
 Theorem C16_write_marker_state : forall gs ns s,
@@ -362,6 +398,19 @@ Theorem C16_marker_write_allowed_iff : forall gs ns, marker_write_allowed gs ns 
   ns = 0 /\ (gs = CSTATE_SCANNING \/ gs = CSTATE_RAW_OK \/ gs = CSTATE_WRCOEFS).
 Proof. exact marker_write_allowed_iff. Qed.
 Print Assumptions C16_marker_write_allowed_iff.
+
+(* the piecemeal API used as documented (header, then exactly datalen bytes) = jpeg_write_marker; the documented
+   precondition (a byte only inside an open budget, a new marker only outside) is explicit in the model *)
+Theorem C16_mapi_piecemeal_equiv : forall gs ns m data out, marker_write_allowed gs ns = true -> Zlength data <= WRITE_MARKER_MAX_DATALEN ->
+  mapi_run gs ns (mkMapi 0 out) (CHeader m (Zlength data) :: map CByte data) = mapi_run gs ns (mkMapi 0 out) [CMarker (m, data)] /\
+  mapi_run gs ns (mkMapi 0 out) [CMarker (m, data)] = Some (mkMapi 0 (out ++ emit_marker m ++ emit_2bytes (Zlength data + 2) ++ map byte_of data)).
+Proof. exact mapi_piecemeal_equiv. Qed.
+Print Assumptions C16_mapi_piecemeal_equiv.
+Theorem C16_mapi_preconditions : forall gs ns out n v s m k, 0 < n ->
+  mapi_step gs ns (mkMapi 0 out) (CByte v) = None /\
+  mapi_step gs ns (mkMapi n out) (CMarker s) = None /\ mapi_step gs ns (mkMapi n out) (CHeader m k) = None.
+Proof. exact mapi_preconditions. Qed.
+Print Assumptions C16_mapi_preconditions.
 
 (* the library's own JFIF marker is traced as a thumbnail-free marker of consistent size; JFXX markers by extension code *)
 Theorem C16_jfif_trace : forall c j, jfif_ok j -> cfg_wf c ->
